@@ -1,12 +1,12 @@
 #!/bin/bash
-# seeded_regress.sh [id...]: apply every stored seeded change (or the ones named) to /repo in turn, run the quick check of the property it
+# seeded_regress.sh [id...] (PRIMARY_ONLY=1: only the check of the property the change breaks): apply every stored seeded change (or the ones named) to /repo in turn, run the quick check of the property it
 # breaks (plus any listed in meta.json checks_run), undo it, and print one line per change: caught with an input / caught without / MISSED.
 cd /verif
 ids="$@"; [ -z "$ids" ] && ids=$(ls seeded)
 for id in $ids; do
   d=/verif/seeded/$id
   [ -f $d/patch.diff ] || continue
-  props=$(python3 -c "import json;m=json.load(open('$d/meta.json'));print(' '.join(dict.fromkeys([m['breaks_property']]+[p for p in m.get('checks_run',[]) if p.startswith('C')])))")
+  props=$(python3 -c "import json,os;m=json.load(open('$d/meta.json'));print(m['breaks_property'] if os.environ.get('PRIMARY_ONLY') else ' '.join(dict.fromkeys([m['breaks_property']]+[p for p in m.get('checks_run',[]) if p.startswith('C')])))")
   out=$(bash tools/try_mutant.sh $d/patch.diff $props 2>&1)
   v=$(echo "$out" | grep -c "^VIOLATION")
   vi=$(echo "$out" | grep "^VIOLATION" | grep -vc "no-failing-input-found")
